@@ -23,9 +23,9 @@ func init() {
 		Real: "real: all of github.com/c4pt0r/kvql built from /repo's working tree (lexer, parser, checker, optimizers, every plan node, functions) and beorn7/perks; simulated: the storage engine behind kvql.Storage/kvql.Cursor (SimStorage) and the calling application (driver)",
 		NCases: func(tier string) int {
 			if tier == "thorough" {
-				return 12000
+				return 300000
 			}
-			return 480
+			return 40000
 		},
 		Gen:        genC13,
 		Run:        runC13,
@@ -175,8 +175,31 @@ var c13Templates = []c13tmpl{
 
 func genC13(seed uint64, i int, tier string) *Scenario {
 	r := NewRng(seed)
+	if (i/(2*len(c13Templates)))%3 == 2 {
+		// every third round: a statement from the typed generator (any plan shape the language can produce)
+		style := pick(r, []string{StoreMixed, StoreInts, StoreNum, StoreText})
+		g := newGen(r, style)
+		b := pickBatch(r)
+		var text string
+		switch r.Intn(8) {
+		case 0:
+			text = g.PutText()
+		case 1:
+			text = g.RemoveText()
+		case 2:
+			text = g.DeleteStmt().Render(false)
+		default:
+			text = g.Select(r.Bool()).Render(false)
+		}
+		return &Scenario{
+			Family:  "generated",
+			Cfg:     Config{Batch: b, Cache: r.Bool(), Alias: r.Chance(0.3), Lazy: r.Chance(0.3)},
+			Init:    genStore(r, pick(r, []int{0, 2, 5, 9, 14, 25}), style),
+			Clients: []Client{{Stmts: []Stmt{{Text: text, Mode: genMode(r)}}}},
+		}
+	}
 	t := c13Templates[i%len(c13Templates)]
-	size := pick(r, []int{0, 1, 3, 6, 12, 20, 35})
+	size := pick(r, []int{0, 1, 3, 6, 12, 20, 35, 50})
 	if tier == "thorough" && r.Chance(0.2) {
 		size = r.Range(0, 70)
 	}
